@@ -23,3 +23,35 @@ package standard
 //@   ensures rootsInWindow(s, slot)
 //@   ensures in(s.beaconBlockRoots, slot) && s.beaconBlockRoots[slot] == root
 //@   modifies contents(s.beaconBlockRoots)
+//@
+//@ // ---- C15: every selected aggregator's contribution is requested for its own subcommittee, signed with its own
+//@ // account and selection proof, and submitted with its own signature ----
+//@ func (*Service).Aggregate
+//@   requires s != nil && duty != nil && nolocks()
+//@   requires s.chainTime != nil && s.beaconBlockRootProvider != nil && s.syncCommitteeContributionProvider != nil && s.contributionAndProofSigner != nil && s.syncCommitteeContributionsSubmitter != nil
+//@   // the duty is built by the controller from the members that were selected: each has its selection proofs
+//@   requires forall k int :: 0 <= k && k < len(duty.ValidatorIndices) ==> in(duty.SelectionProofs, duty.ValidatorIndices[k])
+//@   // go-eth2-client returns a response with every nil error; the signer returns one signature per account
+//@   assumes call BeaconBlockRoot#1 (r, err): err == nil ==> r != nil && r.Data != nil
+//@   assumes call SyncCommitteeContribution#1 (r, err): err == nil ==> r != nil && r.Data != nil
+//@   assumes call SignContributionAndProofs#1 (sgs, err): err == nil ==> len(sgs) == len(arg1)
+//@   // sub[k]: the subcommittee for which the k-th contribution was requested
+//@   ghost sub (Array Int Int) = empty
+//@   at call append#1: ghost sub[len(contributionAndProofs)] = subcommitteeIndex
+//@   // the contribution is requested for the duty's slot, the root in hand and a subcommittee the validator was selected for
+//@   at call SyncCommitteeContribution#1: assert arg1 != nil && arg1.Slot == duty.Slot && arg1.SubcommitteeIndex == subcommitteeIndex && in(duty.SelectionProofs[validatorIndex], subcommitteeIndex) && arg1.BeaconBlockRoot == deref(beaconBlockRoot)
+//@   loop 1
+//@     invariant -1 <= rangeindex && rangeindex < len(duty.ValidatorIndices) && len(accounts) == len(contributionAndProofs) && beaconBlockRoot != nil
+//@     invariant forall k int :: 0 <= k && k < len(contributionAndProofs) ==> contributionAndProofs[k] != nil && contributionAndProofs[k].Contribution != nil && in(duty.Accounts, contributionAndProofs[k].AggregatorIndex) && accounts[k] == duty.Accounts[contributionAndProofs[k].AggregatorIndex] && in(duty.SelectionProofs, contributionAndProofs[k].AggregatorIndex) && in(duty.SelectionProofs[contributionAndProofs[k].AggregatorIndex], sub[k]) && contributionAndProofs[k].SelectionProof == duty.SelectionProofs[contributionAndProofs[k].AggregatorIndex][sub[k]]
+//@   loop 2
+//@     invariant 0 <= rangeindex && rangeindex < len(duty.ValidatorIndices) && validatorIndex == duty.ValidatorIndices[rangeindex] && len(accounts) == len(contributionAndProofs) && beaconBlockRoot != nil
+//@     invariant forall k int :: 0 <= k && k < len(contributionAndProofs) ==> contributionAndProofs[k] != nil && contributionAndProofs[k].Contribution != nil && in(duty.Accounts, contributionAndProofs[k].AggregatorIndex) && accounts[k] == duty.Accounts[contributionAndProofs[k].AggregatorIndex] && in(duty.SelectionProofs, contributionAndProofs[k].AggregatorIndex) && in(duty.SelectionProofs[contributionAndProofs[k].AggregatorIndex], sub[k]) && contributionAndProofs[k].SelectionProof == duty.SelectionProofs[contributionAndProofs[k].AggregatorIndex][sub[k]]
+//@   // what is signed: message k with the account of its own aggregator
+//@   at call SignContributionAndProofs#1: assert len(arg1) == len(arg2) && (forall k int :: 0 <= k && k < len(arg2) ==> arg2[k] != nil && arg1[k] == duty.Accounts[arg2[k].AggregatorIndex] && arg2[k].SelectionProof == duty.SelectionProofs[arg2[k].AggregatorIndex][sub[k]])
+//@   loop 3
+//@     invariant len(signedContributionAndProofs) == rangeindex#2 + 1 && rangeindex#2 < len(sigs) && len(sigs) == len(contributionAndProofs)
+//@     invariant forall k int :: 0 <= k && k <= rangeindex#2 ==> signedContributionAndProofs[k] != nil && signedContributionAndProofs[k].Message == contributionAndProofs[k] && signedContributionAndProofs[k].Signature == sigs[k]
+//@   loop 4
+//@     invariant forall k int :: 0 <= k && k < len(signedContributionAndProofs) ==> signedContributionAndProofs[k] != nil && signedContributionAndProofs[k].Message != nil && signedContributionAndProofs[k].Message.Contribution != nil
+//@   // what is submitted: every signed message with the signature obtained for it
+//@   at call SubmitSyncCommitteeContributions#1: assert len(arg1) == len(sigs) && (forall k int :: 0 <= k && k < len(arg1) ==> arg1[k] != nil && arg1[k].Message == contributionAndProofs[k] && arg1[k].Signature == sigs[k])
